@@ -17,12 +17,15 @@ def conf_nontrivial(tok, res):
         return res == "err" or len(tok) > 3
     if op == "cf":
         return res.startswith("ok") and len(tok) > 6
-    if op in ("cval", "sval", "nr", "bweq"):
+    if op in ("cval", "sval", "nr", "bweq", "pload", "own"):
         return True
     return op in ("prstr", "prrt", "tmpl", "port")
 
 
 def conf_class(r):
+    if r.startswith("seq="):
+        a, _, b = r[4:].partition(" conc=")
+        return "each load its own verdict" if a == b else "verdicts deviate"
     if r.startswith("ok"):
         return "ok"
     if r.startswith("err"):
@@ -62,6 +65,11 @@ PROP = {
             "Frp.C18.model_cfHoldsOn_proxy", "Frp.C18.client_accept", "Frp.C18.visitor_accept",
             "Frp.C18.server_accept", "Frp.C18.model_clientHoldsOn", "Frp.C18.model_visitorHoldsOn",
             "Frp.C18.model_serverHoldsOn",
+            "Frp.C18.client_base_blocks", "Frp.C18.client_accept_iff_blocks", "Frp.C18.client_blocks_indep",
+            "Frp.C18.health_block_none", "Frp.C18.plugin_block_none",
+            "Frp.C18.load_section_held", "Frp.C18.strict_every_level", "Frp.C18.strict_verdict_own",
+            "Frp.C18.strict_unheld_witness", "Frp.C18.strictHoldsOn_sound",
+            "Frp.C18.proxy_complete_idem", "Frp.C18.visitor_complete_idem", "Frp.C18.visitor_complete_twice_witness",
         ],
         "engines": [
             {"name": "conf", "quick_n": 12000, "thorough_n": 60000, "thorough_seeds": 5,
@@ -80,8 +88,16 @@ PROP = {
                 "defaults against file defaults; whole client / server documents with includes, start filter, "
                 "environment values and number-range templates through LoadClientConfig / LoadServerConfig "
                 "(differential against the in-memory path); server and client-common settings as argv against the "
-                "three file formats; client-side, visitor and server validators; parseNumberRange; "
-                "BandwidthQuantity.Equal. Non-trivial = reconstruction carrying several non-zero fields, a parse that "
+                "three file formats; client-side, visitor and server validators — the blocks of a proxy definition (name, "
+                "transport, local address, health check incl. types outside the allowed set, plugin of every type with / "
+                "without the option it needs, the type's own fields) generated independently of each other, for all eight "
+                "types; parseNumberRange; BandwidthQuantity.Equal; `pload`: 2–5 loads of large client documents (30–300 "
+                "proxies, plugin blocks, visitors; TOML / YAML / JSON; an unknown key at no / the top / proxy / plugin / "
+                "visitor / visitor-plugin level, first / middle / last element) through the real LoadConfigure, each alone "
+                "and then all overlapping in separate goroutines with mixed strictness, every verdict compared with "
+                "strict_verdict_own; `own`: a document loaded twice by LoadClientConfig is deeply equal, Complete applied "
+                "once more changes nothing, and the configuration handed to a real client proxy.Manager (wrappers, "
+                "health monitors started) is afterwards still what the loader produced. Non-trivial = reconstruction carrying several non-zero fields, a parse that "
                 "succeeded or was refused, a domain verdict with at least one custom domain, any loader / flag / "
                 "validator op; distinct = distinct (op line, result) pairs",
         "trusted": COMMON_TRUST + [
@@ -101,6 +117,13 @@ PROP = {
             "hand-written expectations Frp.C18.expProxyBase/expDomain/expProxyTyped/expVisitor/expClient/expServer "
             "(the documented flags), Frp.C18.flagOfField, Frp.C18.fileDefaults, Frp.C18.expVisitorSteps, "
             "Frp.C18.proxySpec, Frp.C18.expUnmarshal",
+            "translator gen_typedconf.go, LoadConfigure part: the events on v1.DisallowUnknownFieldsMu / "
+            "v1.DisallowUnknownFields in execution order (same-file helpers inlined, deferred unlock placed where it "
+            "runs; any other use of the switch in pkg/config/load.go aborts the run) — theorem load_section_held "
+            "compares them with lock, write, decode, unlock",
+            "hand-written model Frp/Model/StrictLoad.lean of sync.Mutex (a blocked Lock is a stuttering step) and of "
+            "which decoder reads the local strict argument (top level) and which the package-level switch (every "
+            "nested Typed….UnmarshalJSON; tied by TypedConf's .strictSwitch step and by the `pload` op)",
             "hand-written model Frp/Model/Flags.lean of spf13/pflag's value syntax and argv forms for the flag "
             "kinds frp uses (third-party code; tied by the `fl` op, values outside the modelled fragment are skipped)",
         ],
@@ -108,7 +131,7 @@ PROP = {
             "generic record model: fields are untyped values; Go's static typing of msg.NewProxy / the config structs is not modelled",
             "strconv.ParseFloat is modelled for plain decimals with at most 9 digits; other literals are counted and skipped",
             "TrimSpace / ToLower are modelled for ASCII; non-ASCII range strings are counted and skipped",
-            "the agreement of the TOML, YAML and JSON loaders, strict mode, includes, the start filter and "
+            "the agreement of the TOML, YAML and JSON loaders, which keys a strict load counts as unknown, includes, the start filter and "
             "text/template rendering are differential tests of the real loaders and third-party parsers (ops fmt, "
             "tmpl, load, sload, sx, cx) and field-by-field comparisons with the Complete model (op cf), not "
             "covered by any theorem about the parsers themselves",
@@ -119,7 +142,11 @@ PROP = {
             "keys that have flags, with INI-safe values, are compared with the other paths (ops cf via=ini, sx, cx); "
             "the legacy parser's own range expansion, includes and plugin parameters are not covered; non-positive "
             "xtcp visitor numbers (replaced by defaults in the legacy parser, by design) are not generated",
-            "client plugin options and health-check headers are never set in generated definitions",
+            "client plugin options beyond type / localAddr / localPath / unixPath and health-check headers are never set "
+            "in generated definitions for the validators",
+            "overlapping loads: goroutine schedules are whatever the Go runtime produces in 5–9 repetitions per load "
+            "(not enumerated); the theorem covers all interleavings of the modelled events, the op samples real ones",
+            "`own` hands the configuration to client/proxy.Manager only (visitor.Manager and the server side are C19's)",
             "annotation keys are generated valid only (k8s IsQualifiedName is not modelled)",
         ],
     }
@@ -143,9 +170,16 @@ META = {
                 "recorded ones; `--dashboard_tls_mode` never takes effect (witness theorem, recorded finding). "
                 "Visitor and proxy defaults after Complete are given in closed form for every record; "
                 "Typed{Proxy,Visitor}Config.UnmarshalJSON have the expected statement sequence; definitions accepted "
-                "by the client-side, visitor and server validators satisfy the documented constraints.",
+                "by the client-side, visitor and server validators satisfy the documented constraints; client validation "
+                "is exactly the conjunction of independent block validators (name, transport, local address, health "
+                "check, plugin options, type fields), so the health check is judged with or without a plugin. Any "
+                "number of overlapping LoadConfigure calls (regenerated lock / write / decode / unlock events), in "
+                "every interleaving: each finished load has rejected its document exactly when it is strict and the "
+                "document has an unknown key at some level; the negation is proved for a decode outside the mutex. "
+                "Complete applied to a completed proxy definition (any user), or to a completed visitor definition "
+                "without serverUser, changes no field; with serverUser it does (witness), so only the loader may apply it.",
         "note": "Trusted: Lean kernel, the translators' statement-shape recognisers, the hand-written lists of "
                 "server-relevant fields, documented flags and defaults, the numeric/validation/pflag models (tied by "
-                "12k generated ops per quick run). Not covered by theorems: the three file-format parsers, strict "
-                "mode, includes, template rendering (differential only); the legacy INI parser beyond single sections.",
+                "12k generated ops per quick run). Not covered by theorems: the three file-format parsers, what "
+                "counts as an unknown key, includes, template rendering (differential only); the legacy INI parser beyond single sections.",
     }
